@@ -186,7 +186,9 @@ def record_files_case(cid, Ts, binmode, mods, seed, with_cli=False, origin='rand
     gi = mods['grammarinput']
     to = mods['treeoutput']
     rnd = random.Random(seed)
-    atoms = treeio.Atoms(seed, exotic=True)
+    labs = {x['a']['lab'] for T in Ts for x in T['nodes']}
+    # a word spelled like a category stays as it is (the collision is the point of such a case)
+    atoms = treeio.Atoms(seed, exotic=True, protect={x['a']['word'] for T in Ts for x in T['nodes'] if x['tok']} & labs)
     gram, lex = {}, {}
     events = []
     tmp = tempfile.mkdtemp(prefix='vf_gf_')
